@@ -8,6 +8,7 @@
 -/
 import GoluaVerif.Proofs.Ctx
 import GoluaVerif.Proofs.Propagate
+import GoluaVerif.Model.RecoverExpect
 namespace GoluaVerif.Props.C06
 open GoluaVerif.Generated.Resources GoluaVerif.Model.Ctx GoluaVerif.Spec.Quota GoluaVerif.Proofs.Ctx
 open GoluaVerif.Model.CallCtx GoluaVerif.Proofs.CallCtx GoluaVerif.Proofs.Propagate
@@ -75,15 +76,16 @@ well-formed body — including bodies that release memory of the enclosing conte
 the body is terminated for memory and the enclosing context is memory-limited, the enclosing
 context is terminated as well and nothing runs in between (52f8e49: the bracket is flagged as
 inheriting when it is pushed, and the flag never changes). -/
-theorem limitless_bracket_cannot_absorb_mem (a : Acc) (d : CtxDef) (body : List Item) (hw : wfBody body = true)
+theorem limitless_bracket_cannot_absorb_mem (a : Acc) (d : CtxDef) (body hs : List Item) (hw : wfBody body = true)
+    (hwh : wfBody hs = true)
     (hi : Inv a.st) (hl : a.st.cur.live = true) (hd : d.hard.Memory = 0#64) (hL : a.st.cur.hard.Memory ≠ 0#64)
-    (hk : (runBody { a with st := push a.st d } body).2 = .killed .mem) :
-    (runItem a (.call d body)).2 = .killed .mem ∧
-    (runItem a (.call d body)).1.st.cur.status = StatusKilled ∧
-    LowerL (runItem a (.call d body)).1.st.parents a.st.parents ∧
-    (runItem a (.call d body)).1.events = (runBody { a with st := push a.st d } body).1.events ∧
-    (runItem a (.call d body)).1.results = (runBody { a with st := push a.st d } body).1.results :=
-  limitless_bracket_propagates_mem a d body hw hi hl hd hL hk
+    (hk : (runCall a d body hs).2 = .killed .mem) :
+    (runItem a (.call d body hs)).2 = .killed .mem ∧
+    (runItem a (.call d body hs)).1.st.cur.status = StatusKilled ∧
+    LowerL (runItem a (.call d body hs)).1.st.parents a.st.parents ∧
+    (runItem a (.call d body hs)).1.events = (runCall a d body hs).1.events ∧
+    (runItem a (.call d body hs)).1.results = (runCall a d body hs).1.results :=
+  limitless_bracket_propagates_mem a d body hs hw hwh hi hl hd hL hk
 
 /-- **monotone in M through any nesting of limit-less brackets**: take ANY program made of memory
 requests, releases (also releases of memory required further out, which cascade) and pcall-like
@@ -205,7 +207,7 @@ example : (step ⟨limitedRoot.child CtxDef.none, [limitedRoot]⟩ (.relMem 11#6
 /-- parent requires 600; the pcall bracket releases 500 of them (cascade) and then asks for 150 -/
 def staleProg (M : BitVec 64) : Item :=
   .call ⟨⟨0#64, M, 0#64⟩, Res.zero, 0#16⟩
-    [.op (.reqMem 600#64), .call CtxDef.none [.op (.relMem 500#64), .op (.reqMem 150#64)], .op (.reqMem 520#64)]
+    [.op (.reqMem 600#64), .call CtxDef.none [.op (.relMem 500#64), .op (.reqMem 150#64)] [], .op (.reqMem 520#64)] []
 
 /-- the witness of the former `stale_limit_absorbs_counterexample` (finding C06-STALE-INHERITED-LIMIT,
 repaired by 52f8e49): under M = 700 the bracket's request is refused by its inherited limit and the
@@ -257,6 +259,19 @@ theorem require_release_paired (S : BitVec 64) :
     simp only [compileMemOps, net, BitVec.toNat_ofNat]; omega
   refine ⟨h1, ?_, h1', ?_, h2, ?_, h3, ?_⟩ <;> simp [compileMemOps, Balanced]
 
+/-- **no unclassified recover site** (regenerated instance, shared with C05): every `recover()` of the
+current tree is one of the classified sites of `Model.RecoverExpect`; in particular table.sort's
+recover re-panics what is not its own `sortError`, so a memory termination raised in a comparator
+cannot come back as a catchable Lua error. -/
+theorem recover_sites_classified :
+    Model.RecoverExpect.allClassified = true ∧ Model.RecoverExpect.consistent = true ∧
+    Model.RecoverExpect.noneCatchableFromLua = true := by decide
+
+/-- the relation checked at level A on every allocating library call (`checks/quotaprobes.py`,
+RESULT_SIZE): what the call returns is still live afterwards, so the accounted memory must have grown
+by at least its size; and a load never lowers the accounted memory -/
+theorem chargeCovers_iff (before after size : Nat) : ChargeCovers before after size ↔ before + size ≤ after := Iff.rfl
+
 /-! ## non-vacuity -/
 
 example : Balanced 0 [.req 2048#64, .req 10#64, .rel 2048#64, .rel 10#64] := by simp [Balanced]
@@ -275,7 +290,7 @@ example : let f := (run St.init [.push crossDef]).cur
 
 def memLimited (M : BitVec 64) : St := push St.init ⟨⟨0#64, M, 0#64⟩, Res.zero, 0#16⟩
 def memProg : List Item :=
-  [.op (.reqMem 600#64), .call CtxDef.none [.op (.reqMem 300#64), .call CtxDef.none [.op (.reqMem 200#64)], .op (.relMem 300#64)],
+  [.op (.reqMem 600#64), .call CtxDef.none [.op (.reqMem 300#64), .call CtxDef.none [.op (.reqMem 200#64)] [], .op (.relMem 300#64)] [],
    .op (.relMem 100#64)]
 
 /-- hypotheses of `mem_kill_monotone_nested` with M = 4000, M' = 1000 (δ = 3000): related fresh contexts, a
@@ -288,7 +303,7 @@ example : RelS 3000 (memLimited 4000#64) (memLimited 1000#64) :=
 /-- a program that releases across brackets: the inner bracket gives back 250 of the 600 bytes its
 grandparent required -/
 def memProg2 : List Item :=
-  [.op (.reqMem 600#64), .call CtxDef.none [.op (.reqMem 300#64), .call CtxDef.none [.op (.relMem 550#64), .op (.reqMem 200#64)]],
+  [.op (.reqMem 600#64), .call CtxDef.none [.op (.reqMem 300#64), .call CtxDef.none [.op (.relMem 550#64), .op (.reqMem 200#64)] []] [],
    .op (.reqMem 100#64)]
 
 example : bodyPcallMem memProg = true ∧ bodyPcallMem memProg2 = true ∧
